@@ -95,6 +95,11 @@ func decodeWithContext(
 		// DecodeError use the opaque type.
 		return nil
 	}
+	if len(m.Tags) == 0 {
+		// Without tags there is no tag buffer: keep the layer opaque (the
+		// redacted tags are preserved as its safe details).
+		return nil
+	}
 	if len(m.Tags) == 0 && len(redactedTags) == 0 {
 		// There are no tags stored. Either there are no tags stored, or
 		// we received some new version of the protobuf message which does
